@@ -93,7 +93,7 @@ def run(eng, tier):
     for p in oks:
         dom = Dom(p); dom.assume_bid(BID, p.variant_of(bs.FEE) == 'Some')
         spec, why = settle_spec(p, dom, bs)
-        eng.ob(spec is not None, PROP, 'classify', why or 'ok', 'cannot establish the settlement class of a successful match path: %s' % why, detail=p.describe())
+        eng.ob(spec is not None, PROP, 'classify', why or 'ok', 'cannot establish the settlement class of a successful match path: %s' % why, where=p, detail=p.describe())
         if spec is None: continue
         if spec['ready']: dom.assume_ready_ask(ASK)
         eqv = Equiv(p, [(bs.fdenom, bs.qdenom)] if spec['has_fee'] else [])
@@ -117,7 +117,7 @@ def run(eng, tier):
         # exactly the two named records are written
         ws = p.writes
         ask_w = written_record(p, 'ask'); bid_w = written_record(p, 'bid')
-        eng.ob(len(ws) == 2 and len(ask_w) == 1 and len(bid_w) == 1, PROP, 'two-writes', V_, 'a match must write exactly the named ask and the named bid; found %s' % [(w['op'], w['ns'], K(w['key'])) for w in ws], detail=p.describe())
+        eng.ob(len(ws) == 2 and len(ask_w) == 1 and len(bid_w) == 1, PROP, 'two-writes', V_, 'a match must write exactly the named ask and the named bid; found %s' % [(w['op'], w['ns'], K(w['key'])) for w in ws], where=p, detail=p.describe())
         if len(ask_w) != 1 or len(bid_w) != 1: continue
         op, key, val, w = ask_w[0]
         eng.ob(key in (M(V_, 'ask_id'), F(ASK, 'id')), PROP, 'key', 'ask', 'the ask is written under key %s, not the request ask id' % K(key), where=w['site'])
